@@ -149,5 +149,6 @@ func c19Body(nAbandon int) func(x *X) {
 
 func init() {
 	register(&Scenario{Prop: "C19", Name: "c19/1abandoned", Quick: []Bound{{1, 0}, {2, 0}}, Thorough: []Bound{{3, 0}}, Body: c19Body(1)})
+	register(&Scenario{Prop: "C01", Name: "c01/next-to-abandoned-calls", Quick: []Bound{{1, 0}, {2, 0}}, Thorough: []Bound{{3, 0}}, Body: c19Body(1), OnlyKeys: []string{"C01/", "panic/", "livelock/"}})
 	register(&Scenario{Prop: "C19", Name: "c19/2abandoned", Quick: []Bound{{1, 0}}, Thorough: []Bound{{2, 0}}, Body: c19Body(2)})
 }
